@@ -214,3 +214,16 @@ Proof.
   - specialize (H1 b Hb). apply andb_true_iff in H1 as [Ha Hb']. apply negb_true_iff in Ha, Hb'. auto.
   - destruct (H1 b Hb) as [Ha Hb']. now rewrite Ha, Hb'.
 Qed.
+
+(* ---------- reflect.go: the k-th call binds the fields of the k-th type to ITS OWN tags ---------- *)
+Theorem migrate_history_independent calls k :
+  nth k (migrate_history calls) [] = migrate_tables (nth k calls []).
+Proof.
+  unfold migrate_history. change (@nil (nat * key)) with (migrate_tables []) at 1. apply map_nth.
+Qed.
+
+(* a cache keyed by the type's printed name is wrong as soon as two types print identically *)
+Example migrate_cached_by_name_refuted :
+  migrate_history_cached [] [(0%nat, [[97%N]; [101%N]]); (0%nat, [[65%N]; [69%N]])]
+    <> migrate_history [[[97%N]; [101%N]]; [[65%N]; [69%N]]].
+Proof. vm_compute. discriminate. Qed.
